@@ -143,3 +143,205 @@ class ClassExpansions:
                     return None
                 return T.subst(v, fn)
         return None
+
+
+def list_invariant(prog, ci, attr):
+    """Class invariant for a list attribute: the value `self.<attr>` has at the exit of __init__, rewritten over the
+    object's own attributes (objects constructed in __init__ are named by the attribute that holds them, constructor
+    parameters by the attribute that copies them).  Returned only when it is an invariant: neither <attr> nor any
+    attribute the expression mentions is assigned or mutated in place by any function other than __init__ (name-based
+    sweep over the whole package).  None otherwise.  Cached per program."""
+    from .sva import MUTATING_METHODS
+    cache = prog.__dict__.setdefault('_list_invariants', {}) if hasattr(prog, '__dict__') else {}
+    key = (ci.qual, attr)
+    if key in cache:
+        return cache[key]
+    cache[key] = None
+    init = ci.methods.get('__init__')
+    if init is None:
+        return None
+    I = Interp(prog, max_depth=4, expansions=None)
+    try:
+        r = I.run(init, self_term=sym('self'), self_cls=ci)
+    except Exception:
+        return None
+    selfk = sym('self').key
+    v = r.heap.get((selfk, attr))
+    if v is None:
+        return None
+    by_new, by_param = {}, {}
+    for (ok, name), val in r.heap.items():
+        if ok != selfk or name == attr:
+            continue
+        a = val.single_atom()
+        if a is not None and a.kind == 'ite' and a.args[2].single_atom() is not None and a.args[2].single_atom().kind == 'undef':
+            a = a.args[1].single_atom()       # attribute that exists only in some configurations
+        if a is not None and a.kind == 'new':
+            by_new.setdefault(a.key, name)
+        elif a is not None and a.kind == 'sym' and a.args[0] in init.all_params():
+            by_param.setdefault(a.key, name)
+    used = set()
+
+    def fn(a):
+        if a.key in by_new:
+            used.add(by_new[a.key])
+            return T.mk_attr(sym('self'), by_new[a.key])
+        if a.key in by_param:
+            used.add(by_param[a.key])
+            return T.mk_attr(sym('self'), by_param[a.key])
+        return None
+    w = T.subst(v, fn)
+    for a in T.all_atoms(w).values():
+        if a.kind == 'new' or (a.kind == 'sym' and a.args[0] != 'self') or a.kind in ('loopvar', 'after', 'undef', 'comp'):
+            return None
+    family = {c.qual for c in ci.mro()} | {c.qual for c in prog.classes.values() if ci in c.mro()}
+
+    def foreign_self(fi, n):
+        """`self.<name>` inside a method of an unrelated class is another object's attribute"""
+        recv = n.value if isinstance(n, ast.Attribute) else None
+        o = fi
+        while o is not None and o.cls is None:
+            o = o.parent
+        return isinstance(recv, ast.Name) and recv.id == 'self' and o is not None and o.cls.qual not in family
+    for name in used | {attr}:
+        for fi in prog.functions.values():
+            if isinstance(fi.node, ast.Lambda) or fi is init:
+                continue
+            for n in ast.walk(fi.node):
+                if isinstance(n, ast.Attribute) and n.attr == name and foreign_self(fi, n):
+                    continue
+                if isinstance(n, ast.Attribute) and n.attr == name:
+                    if isinstance(n.ctx, (ast.Store, ast.Del)):
+                        return None
+                if isinstance(n, ast.Subscript) and isinstance(n.ctx, (ast.Store, ast.Del)) and \
+                        isinstance(n.value, ast.Attribute) and n.value.attr == name and name == attr:
+                    return None
+                if isinstance(n, ast.Call) and isinstance(n.func, ast.Attribute) and n.func.attr in MUTATING_METHODS and \
+                        isinstance(n.func.value, ast.Attribute) and n.func.value.attr == name and name == attr:
+                    return None
+                if isinstance(n, ast.Call) and isinstance(n.func, ast.Name) and n.func.id == 'setattr' and fi.module is ci.module:
+                    if len(n.args) >= 2 and not (isinstance(n.args[1], ast.Constant) and n.args[1].value != name):
+                        return None
+    cache[key] = w
+    return w
+
+
+def list_invariant_for(prog, base_cls, attr):
+    """(class, invariant) for `<obj>.<attr>`: the object's class when known, else the only class of the package whose
+    constructor establishes such an invariant (duck typing, as for uniquely named methods)"""
+    if base_cls is not None:
+        for c in base_cls.mro():
+            w = list_invariant(prog, c, attr)
+            if w is not None:
+                return c, w
+        return None, None
+    hits = [(c, list_invariant(prog, c, attr)) for c in prog.classes.values() if '__init__' in c.methods]
+    hits = [(c, w) for c, w in hits if w is not None]
+    return hits[0] if len(hits) == 1 else (None, None)
+
+
+def elem_invariants(prog, ci, list_attr):
+    """For a list attribute that __init__ fills with objects it constructs (`self.antennas.append(Antenna(..., num_pols=
+    self.num_pols, ...))`): {attribute of the element: its value over the OWNER's attributes}, for the element attributes
+    that the element's constructor copies from an argument which is itself an attribute (or constructor parameter copied
+    into an attribute) of the owner, and that no function other than a constructor ever stores.  Cached per program."""
+    from .sva import MUTATING_METHODS
+    cache = prog.__dict__.setdefault('_elem_invariants', {})
+    key = (ci.qual, list_attr)
+    if key in cache:
+        return cache[key]
+    cache[key] = {}
+    init = ci.methods.get('__init__')
+    if init is None:
+        return {}
+    I = Interp(prog, max_depth=4, expansions=None)
+    try:
+        r = I.run(init, self_term=sym('self'), self_cls=ci)
+    except Exception:
+        return {}
+    selfk = sym('self').key
+    apps = [e for e in I.events if e.kind == 'call' and e.data.get('name') == '.append' and e.data.get('recv') is not None
+            and e.data['recv'].single_atom() is not None and e.data['recv'].single_atom().kind in ('attr', 'loopvar', 'list', 'call')
+            and isinstance(e.data.get('recv_node'), ast.Attribute) and e.data['recv_node'].attr == list_attr
+            and isinstance(e.data['recv_node'].value, ast.Name) and e.data['recv_node'].value.id == 'self']
+    if len(apps) != 1:
+        return {}
+    e = apps[0]
+    obj = e.data['args'][1]
+    oa = obj.single_atom()
+    if oa is None or oa.kind != 'new':
+        return {}
+    heap = e.loops[-1].get('heap_exit') if e.loops else r.heap
+    if heap is None:
+        return {}
+    # the list is assigned/mutated nowhere else
+    for fi in prog.functions.values():
+        if isinstance(fi.node, ast.Lambda) or fi is init:
+            continue
+        for n in ast.walk(fi.node):
+            if isinstance(n, ast.Attribute) and n.attr == list_attr and isinstance(n.ctx, (ast.Store, ast.Del)):
+                return {}
+            if isinstance(n, ast.Subscript) and isinstance(n.ctx, (ast.Store, ast.Del)) and isinstance(n.value, ast.Attribute) \
+                    and n.value.attr == list_attr:
+                return {}
+            if isinstance(n, ast.Call) and isinstance(n.func, ast.Attribute) and n.func.attr in MUTATING_METHODS and \
+                    isinstance(n.func.value, ast.Attribute) and n.func.value.attr == list_attr:
+                return {}
+    by_param = {}
+    for (ok, name), val in r.heap.items():
+        if ok == selfk:
+            a = val.single_atom()
+            if a is not None and a.kind == 'sym' and a.args[0] in init.all_params():
+                by_param.setdefault(a.key, name)
+
+    def stored_outside_constructors(name):
+        for fi in prog.functions.values():
+            if isinstance(fi.node, ast.Lambda) or fi.name == '__init__':
+                continue
+            for n in ast.walk(fi.node):
+                if isinstance(n, ast.Attribute) and n.attr == name and isinstance(n.ctx, (ast.Store, ast.Del)):
+                    return True
+                if isinstance(n, ast.Call) and isinstance(n.func, ast.Name) and n.func.id == 'setattr' and len(n.args) >= 2:
+                    if isinstance(n.args[1], ast.Constant):
+                        if n.args[1].value == name:
+                            return True
+                    elif fi.module is ci.module:
+                        return True           # a dynamic attribute name in the owner's module could be this one
+        return False
+    out = {}
+    for (ok, name), val in heap.items():
+        if ok != obj.key:
+            continue
+
+        def fn(a):
+            if a.key in by_param:
+                return T.mk_attr(sym('self'), by_param[a.key])
+            return None
+        w = T.subst(val, fn)
+        good = True
+        used = set()
+        for a in T.all_atoms(w).values():
+            if a.kind in ('new', 'loopvar', 'after', 'undef', 'idx', 'elem', 'key', 'comp', 'call') or (
+                    a.kind == 'sym' and a.args[0] != 'self'):
+                good = False
+            if a.kind == 'attr' and a.args[0].key == selfk:
+                used.add(a.args[1])
+        if not good or not used:
+            continue
+        if stored_outside_constructors(name) or any(stored_outside_constructors(u) for u in used):
+            continue
+        out[name] = w
+    cache[key] = out
+    return out
+
+
+def elem_invariant_for(prog, owner_cls, list_attr, name):
+    if owner_cls is not None:
+        for c in owner_cls.mro():
+            w = elem_invariants(prog, c, list_attr).get(name)
+            if w is not None:
+                return w
+        return None
+    hits = [elem_invariants(prog, c, list_attr).get(name) for c in prog.classes.values() if '__init__' in c.methods]
+    hits = [w for w in hits if w is not None]
+    return hits[0] if len(hits) == 1 else None
